@@ -25,12 +25,12 @@ LEVEL = "model_checking"
 TECHNIQUE = "explicit-state BFS over API call histories on the real objects (replay-from-fresh, white-box state fingerprints), invariant checked in every state against a fresh-model reference"
 RULE = (
     "states = distinct white-box fingerprints of (model[, rotator/bootstrapper]) reached by histories over "
-    "{fit(D1|D2|D3), transform(fit data|new data), inverse_transform, components, scores, metrics, compute, serialize, "
+    "{fit(D1|D2|D3), transform(fit data|new data), inverse_transform, components, scores, normalised accessors, metrics, compute, serialize, "
     "rot.fit(model), boot.fit(model)} up to the tier's depth; transitions = (state, operation) pairs executed; every "
     "executed history is validated against the reference model 'fresh object fitted once on the last-fit data'"
 )
 LEVEL_TEXT = (
-    "exhaustive BFS of the operation graph to the stated depth for each of 8 subject classes; the invariant (answers = fresh "
+    "exhaustive BFS of the operation graph to the stated depth for each of 9 subject classes; the invariant (answers = fresh "
     "model's answers, inputs unmodified, underlying model intact after rotator/bootstrapper fit) is evaluated in every state"
 )
 ASSUMPTIONS = [
@@ -66,8 +66,26 @@ def _ds(seed, salt, n=7, t0=0):
     return ds
 
 
-def datasets(seed, cross=False):
+def _two(o, nrun=2):
+    """(time = m * nrun, ...) -> (time = m, run = nrun, ...): the same numbers with two sample dimensions."""
+    import pandas as pd
+
+    m = o.sizes["time"] // nrun
+    t0 = int(o.time.values[0])
+    o = o.isel(time=slice(0, m * nrun))
+    idx = pd.MultiIndex.from_product([np.arange(m) + t0, np.arange(nrun)], names=("t", "run"))
+    o = o.drop_vars("time").assign_coords(xr.Coordinates.from_pandas_multiindex(idx, "time")).unstack("time")
+    return o.rename({"t": "time"})
+
+
+def datasets(seed, cross=False, two=False):
     """name -> object. Groups: A = {D1, D2, DnewA} share a structure; B = {D3, DnewB}."""
+    if two:
+        d = datasets(seed, cross, False)
+        out = {}
+        for k, v in d.items():
+            out[k] = _two(v) if not isinstance(v, xr.Dataset) else xr.Dataset({n: _two(v[n]) for n in v.data_vars}, attrs=v.attrs)
+        return out
     d = {
         "D1": _da(seed, 1),
         "D2": _da(seed, 2, shift=5.0, fac=2.0, spec="near_equal_var"),  # nearly equal variances: rotation re-orders the modes
@@ -101,7 +119,8 @@ YOF = {"D1": "E1", "D2": "E2", "D3": "E3", "DnewA": "EnewA", "DnewB": "EnewB"}
 
 # ----------------------------------------------------------------------------- subjects
 
-SUBJECTS = ["EOF", "SparsePCA", "POP", "CPCCA", "MCA", "EOF+Rotator", "MCA+Rotator", "EOF+Bootstrapper"]
+SUBJECTS = ["EOF", "EOF2s", "SparsePCA", "POP", "CPCCA", "MCA", "EOF+Rotator", "MCA+Rotator", "EOF+Bootstrapper"]
+TWO = {"EOF2s"}  # subjects whose data sets have two sample dimensions (time, run)
 CROSS = {"CPCCA", "MCA", "MCA+Rotator"}
 
 
@@ -109,7 +128,7 @@ def new_system(subject):
     import xeofs as xe
 
     s = {}
-    if subject in ("EOF", "EOF+Rotator", "EOF+Bootstrapper"):
+    if subject in ("EOF", "EOF2s", "EOF+Rotator", "EOF+Bootstrapper"):
         s["model"] = xe.single.EOF(n_modes=3, random_state=3)
     elif subject == "SparsePCA":
         s["model"] = xe.single.SparsePCA(n_modes=2, alpha=1e-3, random_state=3, solver="full")
@@ -129,7 +148,7 @@ def new_system(subject):
 
 
 def ops_of(subject, tier_alphabet="full"):
-    ops = ["fit:D1", "fit:D2", "fit:D3", "transform:fit", "transform:new", "inverse_transform", "components", "scores", "metrics", "compute", "serialize"]
+    ops = ["fit:D1", "fit:D2", "fit:D3", "transform:fit", "transform:new", "inverse_transform", "components", "scores", "accessors:normalized", "metrics", "compute", "serialize"]
     if tier_alphabet == "fit_transform":
         return ops[:5]
     if subject.endswith("+Rotator"):
@@ -157,10 +176,11 @@ def apply_op(subject, sys_, op, dsets, absstate):
     last = absstate.get("last")
     if op.startswith("fit:"):
         d = op[4:]
+        dim = ("time", "run") if subject in TWO else "time"
         if cross:
-            m.fit(dsets[d], dsets[YOF[d]], dim="time")
+            m.fit(dsets[d], dsets[YOF[d]], dim=dim)
         else:
-            m.fit(dsets[d], dim="time")
+            m.fit(dsets[d], dim=dim)
         absstate["last"] = d
         return None
     if last is None:
@@ -179,6 +199,9 @@ def apply_op(subject, sys_, op, dsets, absstate):
         return _call(m.components)
     if op == "scores":
         return _call(m.scores)
+    if op == "accessors:normalized":
+        # the non-default normalisation switches of the accessors (must be pure queries, too)
+        return [_call(m.scores, normalized=True), _call(m.components, normalized=False), _call(m.transform, dsets[last], *( [dsets[YOF[last]]] if cross else []), normalized=True)]
     if op == "metrics":
         return _metrics(subject, m)
     if op == "compute":
@@ -205,6 +228,7 @@ def _metrics(subject, m):
     out = {}
     names = {
         "EOF": ["explained_variance", "explained_variance_ratio", "singular_values"],
+        "EOF2s": ["explained_variance", "explained_variance_ratio", "singular_values"],
         "SparsePCA": ["explained_variance", "explained_variance_ratio"],
         "POP": ["eigenvalues", "periods", "damping_times"],
         "CPCCA": ["squared_covariance_fraction", "cross_correlation_coefficients"],
@@ -256,7 +280,7 @@ def aux_answers(obj):
 @functools.lru_cache(maxsize=None)
 def reference(subject, last, seed, aux):
     """Answers of a fresh system fitted exactly once on `last` (then, optionally, aux fitted once)."""
-    dsets = datasets(seed, subject in CROSS)
+    dsets = datasets(seed, subject in CROSS, subject in TWO)
     s = new_system(subject)
     st = {}
     with warnings.catch_warnings():
@@ -319,8 +343,8 @@ _STATS = {}
 
 def run_case(case, seed):
     subject, history = case["subject"], case["history"]
-    dsets = datasets(seed, subject in CROSS)
-    pristine = datasets(seed, subject in CROSS)
+    dsets = datasets(seed, subject in CROSS, subject in TWO)
+    pristine = datasets(seed, subject in CROSS, subject in TWO)
     s = new_system(subject)
     st = {}
     V = []
